@@ -137,6 +137,30 @@ func (g *Gen) calls() []callRef {
 
 func (g *Gen) liveChain(c int) bool { return !g.W.stuck[c] }
 
+// receiver of a conversion: mostly the sender or another user; sometimes a blocked module address (erc20 module, a
+// chain module, the evm module: MintingEnabled / the bank must refuse) or the pair's own contract (allowed)
+func (g *Gen) receiver(a, t int) int {
+	switch n := g.R.Pick(100); {
+	case n < 50:
+		return a
+	case n < 84:
+		return g.user()
+	case n < 90:
+		return aERC20
+	case n < 93:
+		return g.W.Chains[g.R.Pick(len(g.W.Chains))]
+	case n < 95:
+		return aEVM
+	case n < 97:
+		return aIBC
+	default:
+		if t > 0 {
+			return tokAcct + t
+		}
+		return aWFX
+	}
+}
+
 // extDeposit: an externally-owned token can only come back from chain c after it really arrived there: at most what
 // was observed as executed towards c minus what already came back (the external chain cannot return tokens that are
 // still in flight); sometimes more than the module has locked at all (must be refused)
@@ -471,18 +495,10 @@ func (g *Gen) Next(step int) Op {
 			return Op{K: k, C: c, A: to, B: rf, Toks: toks, Flag: okk, To: to}
 		case "ConvertCoin":
 			a, t = g.holder(false)
-			b := a
-			if r.Chance(40) {
-				b = g.user()
-			}
-			return Op{K: k, T: t, A: a, B: b, X: g.amt(g.bankBal(a, t, 0), 5000)}
+			return Op{K: k, T: t, A: a, B: g.receiver(a, t), X: g.amt(g.bankBal(a, t, 0), 5000)}
 		case "ConvertERC20":
 			a, t = g.holder(true)
-			b := a
-			if r.Chance(40) {
-				b = g.user()
-			}
-			return Op{K: k, T: t, A: a, B: b, X: g.amt(g.ercBal(a, t), 5000)}
+			return Op{K: k, T: t, A: a, B: g.receiver(a, t), X: g.amt(g.ercBal(a, t), 5000)}
 		case "ConvertDenom":
 			if g.AvoidKF {
 				continue
@@ -499,11 +515,7 @@ func (g *Gen) Next(step int) Op {
 			if w.denomOf(t, src) == "" {
 				continue
 			}
-			b := a
-			if r.Chance(30) {
-				b = g.user()
-			}
-			return Op{K: k, T: t, A: a, B: b, Src: src, Tgt: tgt, X: g.amt(g.bankBal(a, t, src), 2000)}
+			return Op{K: k, T: t, A: a, B: g.receiver(a, t), Src: src, Tgt: tgt, X: g.amt(g.bankBal(a, t, src), 2000)}
 		case "Toggle":
 			if len(g.calls()) > 0 || len(w.disabledTok) > 0 {
 				continue // a disabled pair makes refunds to ERC-20 impossible (ConvertCoin refuses): kept out of the histories
